@@ -2014,6 +2014,29 @@ func (g *gen) generate() string {
 	}
 	g.emitMultiline("def asymHelpers : List AsymHelper :=", items)
 
+	g.pf("\n/-- The asymmetric side statement by statement (rendered source): what each entry point does\nbefore its `switch algorithm`, and the whole body of every helper. -/\n")
+	for _, top := range []string{"Encrypt", "Decrypt", "EncryptSymmetric", "DecryptSymmetric", "EncryptPublicKey", "DecryptPrivateKey", "SignPrivateKey", "VerifyPublicKey"} {
+		c := g.crypto.fn(top)
+		idx, _ := algorithmSwitch(c)
+		g.pf("def pre_%s : List String := %s\n", top, qlist(stmtsOneLine(c.stmts()[:idx])))
+		if idx != len(c.stmts())-1 {
+			failf(c.fd.Pos(), "%s: statements after the `switch algorithm` (unknown shape)", top)
+		}
+	}
+	var order []string
+	seen2 := map[string]bool{}
+	for _, top := range []string{"EncryptPublicKey", "DecryptPrivateKey", "SignPrivateKey", "VerifyPublicKey"} {
+		for _, cs := range sws[top].cases {
+			if !seen2[cs.callee] {
+				seen2[cs.callee] = true
+				order = append(order, cs.callee)
+			}
+		}
+	}
+	for _, fn := range order {
+		g.pf("def abody_%s : List String := %s\n", fn, qlist(stmtsOneLine(g.crypto.fn(fn).stmts())))
+	}
+
 	g.pf("\nend Kit.Generated.C03\n")
 	return g.out.String()
 }
